@@ -4,18 +4,18 @@
 TIER=${1:-quick}
 cd /verif || exit 2
 OUT=seeded/RESULTS.md
-echo "| seeded change | check | tier | exit | violations | first signature |" > $OUT
-echo "|---|---|---|---|---|---|" >> $OUT
-for d in seeded/*/; do
+if [ -z "$SEEDS" ]; then echo "| seeded change | check | tier | exit | violations | first signature |" > $OUT; echo "|---|---|---|---|---|---|" >> $OUT; fi
+for d in ${SEEDS:-seeded/*/}; do
   id=$(basename $d); prop=${id%%-*}
+  alt=$(python3 -c "import json;print(json.load(open('$d/meta.json')).get('check',''))" 2>/dev/null); [ -n "$alt" ] && prop=$alt
   [ -f $d/patch.diff ] || continue
   if ! git -C /repo apply --check $PWD/$d/patch.diff 2>/dev/null; then
-    if git -C /repo apply --3way $PWD/$d/patch.diff >/dev/null 2>&1; then :; else echo "| $id | $prop | $TIER | - | patch does not apply | |" >> $OUT; git -C /repo checkout -- . ; continue; fi
+    if git -C /repo apply --3way $PWD/$d/patch.diff >/dev/null 2>&1; then :; else echo "| $id | $prop | $TIER | - | patch does not apply | |" >> $OUT; git -C /repo reset -q --hard HEAD ; continue; fi
   else
     git -C /repo apply $PWD/$d/patch.diff
   fi
   timeout 900 ./check $prop $TIER > /tmp/seedrun.log 2>&1; rc=$?
-  git -C /repo checkout -- . ; git -C /repo reset -q
+  git -C /repo reset -q --hard HEAD
   nv=$(grep -c '^VIOLATION' /tmp/seedrun.log)
   sig=$(grep -m1 '^  signature' /tmp/seedrun.log | sed 's/  signature: //' | cut -c1-90)
   echo "| $id | $prop | $TIER | $rc | $nv | \`$sig\` |" >> $OUT
